@@ -279,6 +279,14 @@ def structural_status(repo):
 
 
 STRUCTURAL = [structural_status]
+def _standin(repo, seed, tier):
+    from pyvc.standin import run_standin
+    return run_standin('C03', tier, seed, repo)
+
+
+_standin.tiers = ('quick', 'thorough')
+BOUNDED = [_standin]
+
 NOT_DECIDED = ['that the composition of these clauses equals the interpreter\'s choice for every program '
                '(e.g. jedi\'s textual "defined before the use" cut inside loops)',
                'reachability_check itself (calls inference)', 'filter_name / create_context / goto dispatch: pending']
